@@ -645,6 +645,7 @@ pub fn generate(seed: u64, case: u64, max_steps: usize) -> Ran {
     let total: u128 = balances.iter().fold(0u128, |a, (_, x)| a.saturating_add(x.u128()));
     let minter = match if big && r.chance(1, 3) { 99 } else { r.below(10) } {
         99 => Some((pick_arg(&mut r, n), Some(Uint128::MAX))), // the cap at the very edge of u128
+        0 if r.chance(1, 3) => Some((pick_arg(&mut r, n), Some(Uint128::zero()))), // cap 0, whatever the initial supply
         0 | 1 => None,
         2..=4 => Some((pick_arg(&mut r, n), None)),
         5..=7 => Some((pick_arg(&mut r, n), Some(Uint128::new(total.saturating_add(r.below(500) as u128))))),
@@ -747,7 +748,10 @@ pub fn generate(seed: u64, case: u64, max_steps: usize) -> Ran {
                 } else {
                     let hs = [balance_of(holder), r.below(500) as u128, if big { u128::MAX } else { 77 }];
                     let sp = pick_arg(&mut r, n);
-                    (holder, Op::Inc { sp, n: pick_amount(&mut r, &hs), e: pick_exp(&mut r, h, t) })
+                    // the receiving contract itself may own tokens and grant allowances (a SendFrom can then name it as
+                    // owner and as receiving contract at once)
+                    let owner = if r.chance(1, 8) { recv_id } else { holder };
+                    (owner, Op::Inc { sp, n: pick_amount(&mut r, &hs), e: pick_exp(&mut r, h, t) })
                 }
             }
             53..=61 => {
@@ -772,7 +776,7 @@ pub fn generate(seed: u64, case: u64, max_steps: usize) -> Ran {
                     62..=76 => (s, Op::TransferFrom { o, to: pick_arg(&mut r, n), n: pick_amount(&mut r, &hs) }),
                     77..=83 => (s, Op::BurnFrom { o, n: pick_amount(&mut r, &hs) }),
                     _ => {
-                        let c = if r.chance(3, 4) { Arg::Id(recv_id) } else { pick_arg(&mut r, n) };
+                        let c = if o == Arg::Id(recv_id) || r.chance(3, 4) { Arg::Id(recv_id) } else { pick_arg(&mut r, n) };
                         (s, Op::SendFrom { o, c, n: pick_amount(&mut r, &hs), p: r.below(8) })
                     }
                 }
